@@ -6,6 +6,7 @@ from . import build, runner, engine
 def run(path):
     rep = json.load(open(path))
     special = rep.get("replay_special")
+    rep["_path"] = path
     if special:
         from . import special_replay
         return special_replay.run(rep)
